@@ -15,7 +15,7 @@
 //!  * valueset/session.rs        `ValueSetSession::{insert_checked, remove}`,
 //!                               `ValueSetOauth2Session::{insert_checked, remove}`
 //!  * idm/server.rs              `check_oauth2_account_uuid_valid`: the three lookups, the grace
-//!                               comparison, the two `!matches!(.., RevokedAt(_))`, every leaf
+//!                               comparison, the `session_state_live` closure arm by arm and its two uses, every leaf
 use super::vars;
 use crate::util::*;
 use quote::ToTokens;
@@ -565,6 +565,9 @@ struct CheckOps {
     parent_valid_src: String,
     parent_valid: String,
     leaves: Vec<(&'static str, bool)>,
+    live_revoked: bool,
+    live_expires: (String, String),
+    live_never: bool,
 }
 
 fn check_fn(repo: &str) -> Result<CheckOps, String> {
@@ -598,10 +601,56 @@ fn check_fn(repo: &str) -> Result<CheckOps, String> {
         syn::BinOp::Ge(_) => format!("decide (ct ≥ {rhs})"),
         _ => return Err(format!("{n}: `grace_valid` is not an order comparison")),
     };
+    // `let ct_odt = EPOCH + ct; let session_state_live = |state: &SessionState| match state { .. };`
+    let codt = find_local(&f.block, "ct_odt")?;
+    if nsp(&codt) != "time::OffsetDateTime::UNIX_EPOCH+ct" {
+        return Err(format!("{n}: `ct_odt` is `{}`", toks(&codt)));
+    }
+    let live = find_local(&f.block, "session_state_live")?;
+    let syn::Expr::Closure(lc) = &live else { return Err(format!("{n}: `session_state_live` is not a closure")) };
+    if lc.inputs.len() != 1 || nsp(&lc.inputs[0]) != "state:&SessionState" {
+        return Err(format!("{n}: `session_state_live` must take `state: &SessionState`"));
+    }
+    let syn::Expr::Match(lm) = &*lc.body else { return Err(format!("{n}: `session_state_live` is not a `match`")) };
+    if nsp(&*lm.expr) != "state" || lm.arms.len() != 3 {
+        return Err(format!("{n}: `session_state_live` must be `match state` with 3 arms"));
+    }
+    let (mut live_revoked, mut live_expires, mut live_never) = (None, None, None);
+    for a in &lm.arms {
+        if a.guard.is_some() {
+            return Err(format!("{n}: `session_state_live`: guarded arm `{}`", toks(&a.pat)));
+        }
+        match nsp(&a.pat).as_str() {
+            "SessionState::RevokedAt(_)" => live_revoked = Some(expr_bool(&a.body)?),
+            "SessionState::NeverExpires" => live_never = Some(expr_bool(&a.body)?),
+            "SessionState::ExpiresAt(exp)" => {
+                let body = expr_block_tail(&a.body)?;
+                live_expires = Some(match body {
+                    b if is_cmp(b) => (toks(b), lean_expr(b, &vars(&[("exp", "exp"), ("ct_odt", "ct")]))?),
+                    b => (toks(b), lb(expr_bool(b)?).to_string()),
+                });
+            }
+            o => return Err(format!("{n}: `session_state_live`: unknown arm `{o}`")),
+        }
+    }
+    let (Some(live_revoked), Some(live_expires), Some(live_never)) = (live_revoked, live_expires, live_never) else {
+        return Err(format!("{n}: `session_state_live` must have one arm each for RevokedAt(_), ExpiresAt(exp), NeverExpires"));
+    };
+    let call = |e: &syn::Expr, subject: &str| -> Result<String, String> {
+        let want = format!("session_state_live(&{subject}.state)");
+        let s = nsp(e);
+        if s == want {
+            Ok("live".to_string())
+        } else if s == format!("!{want}") {
+            Ok("(!live)".to_string())
+        } else {
+            Err(format!("{n}: `{}` is not `[!]session_state_live(&{subject}.state)`", toks(e)))
+        }
+    };
     let ov = find_local(&f.block, "oauth2_session_valid")?;
-    let o2_valid = not_revoked(&ov, "oauth2_session", "revoked")?;
+    let o2_valid = call(&ov, "oauth2_session")?;
     let pv = find_local(&f.block, "parent_session_valid")?;
-    let parent_valid = not_revoked(&pv, "uat_session", "revoked")?;
+    let parent_valid = call(&pv, "uat_session")?;
     let all = ifs(&f.block);
     let conds: Vec<String> = all.iter().map(|i| nsp(&*i.cond)).collect();
     let want = [
@@ -636,7 +685,40 @@ fn check_fn(repo: &str) -> Result<CheckOps, String> {
         ("chkO2MissingGrace", !returns_none(&all[8].then_branch)),
         ("chkO2MissingNoGrace", !returns_none(&else_block(&all[8])?)),
     ];
-    Ok(CheckOps { grace_src: toks(&g), grace, o2_valid_src: toks(&ov), o2_valid, parent_valid_src: toks(&pv), parent_valid, leaves })
+    Ok(CheckOps { grace_src: toks(&g), grace, o2_valid_src: toks(&ov), o2_valid, parent_valid_src: toks(&pv), parent_valid, leaves, live_revoked, live_expires, live_never })
+}
+
+/// credential/mod.rs: do the mutators a credential update can commit give the credential a new uuid?
+fn cred_update_rotates(repo: &str) -> Result<bool, String> {
+    let ast = parse_file(repo, "server/lib/src/credential/mod.rs")?;
+    let mut rot = vec![];
+    for name in ["update_password", "append_totp", "remove_totp", "update_backup_code", "remove_backup_code"] {
+        let f = find_fn(&ast, &format!("Credential::{name}"))?;
+        let t = nsp(&f.block);
+        let (fresh, keep) = (t.matches("uuid:Uuid::new_v4()").count(), t.matches("uuid:self.uuid").count());
+        match (fresh, keep) {
+            (1, 0) => rot.push(true),
+            (0, 1) => rot.push(false),
+            _ => return Err(format!("Credential::{name}: expected exactly one `uuid: Uuid::new_v4()` (or `uuid: self.uuid`) in the credential it builds, found {fresh} / {keep}")),
+        }
+    }
+    let f = find_fn(&ast, "Credential::set_password")?;
+    if !nsp(&f.block).contains(".map(|pw|self.update_password(pw,timestamp))") {
+        return Err("Credential::set_password no longer goes through `self.update_password(pw, timestamp)`".into());
+    }
+    let cu = parse_file(repo, "server/lib/src/idm/credupdatesession.rs")?;
+    let f = find_fn(&cu, "IdmServerCredUpdateTransaction::credential_primary_set_password")?;
+    let t = nsp(&f.block);
+    if !t.contains("primary.set_password(self.crypto_policy,pw,timestamp)?") || !t.contains("Credential::new_password_only(self.crypto_policy,pw,timestamp)?") {
+        return Err("credential_primary_set_password: expected `primary.set_password(..)` / `Credential::new_password_only(..)`".into());
+    }
+    if rot.iter().all(|r| *r) {
+        Ok(true)
+    } else if rot.iter().all(|r| !*r) {
+        Ok(false)
+    } else {
+        Err("credential mutators disagree on rotating the credential uuid".into())
+    }
 }
 
 fn session_plugin_ops(repo: &str, out: &str) -> Result<String, String> {
@@ -650,6 +732,7 @@ fn session_plugin_ops(repo: &str, out: &str) -> Result<String, String> {
     plugin_is_run(repo)?;
     let (ins_src, ins) = valueset(repo)?;
     let c = check_fn(repo)?;
+    let rot = cred_update_rotates(repo)?;
 
     let q = |s: &str| s.replace('`', "'");
     let mut b = String::from("namespace Kanidm.Gen.SessionPlugin\nopen Kanidm.SessionPlugin\n");
@@ -691,16 +774,20 @@ fn session_plugin_ops(repo: &str, out: &str) -> Result<String, String> {
         q(&c.grace_src),
         c.grace
     );
-    b += &format!("/-- `let oauth2_session_valid = {}` -/\ndef chkO2SessionValid (revoked : Bool) : Bool := {}\n", q(&c.o2_valid_src), c.o2_valid);
-    b += &format!("/-- `let parent_session_valid = {}` -/\ndef chkParentValid (revoked : Bool) : Bool := {}\n", q(&c.parent_valid_src), c.parent_valid);
+    b += &format!("/-- `session_state_live`, arm `SessionState :: RevokedAt (_)` -/\ndef chkLiveRevoked : Bool := {}\n", lb(c.live_revoked));
+    b += &format!("/-- `session_state_live`, arm `SessionState :: ExpiresAt (exp)`: `{}` (`ct_odt = EPOCH + ct`) -/\ndef chkLiveExpires (exp ct : Nat) : Bool := {}\n", q(&c.live_expires.0), c.live_expires.1);
+    b += &format!("/-- `session_state_live`, arm `SessionState :: NeverExpires` -/\ndef chkLiveNever : Bool := {}\n", lb(c.live_never));
+    b += &format!("/-- `let oauth2_session_valid = {}` -/\ndef chkO2SessionValid (live : Bool) : Bool := {}\n", q(&c.o2_valid_src), c.o2_valid);
+    b += &format!("/-- `let parent_session_valid = {}` -/\ndef chkParentValid (live : Bool) : Bool := {}\n", q(&c.parent_valid_src), c.parent_valid);
     b += "/-- leaves of `check_oauth2_account_uuid_valid`: `true` = falls through to `Ok(Some(entry))`, `false` = `return Ok(None)` -/\n";
     for (name, v) in &c.leaves {
         b += &format!("def {name} : Bool := {}\n", lb(*v));
     }
+    b += &format!("/-- credential/mod.rs: every mutator a credential update can commit (`update_password`, `append_totp`, `remove_totp`, `update_backup_code`, `remove_backup_code`) builds the credential with `uuid: Uuid::new_v4()`; `set_password` goes through `update_password` -/\ndef credUpdateRotatesId : Bool := {}\n", lb(rot));
     b += "end Kanidm.Gen.SessionPlugin\n";
     let path = format!("{out}/SessionPluginOps.lean");
     let text = format!(
-        "-- GENERATED by vtranslate from proto/src/constants.rs, server/lib/src/plugins/session.rs, server/lib/src/plugins/mod.rs, server/lib/src/valueset/session.rs, server/lib/src/idm/server.rs. Do not edit: rewritten on every check run.\nimport KanidmModel.SessionPluginTypes\nset_option linter.unusedVariables false\n{b}"
+        "-- GENERATED by vtranslate from proto/src/constants.rs, server/lib/src/plugins/session.rs, server/lib/src/plugins/mod.rs, server/lib/src/valueset/session.rs, server/lib/src/idm/server.rs, server/lib/src/credential/mod.rs, server/lib/src/idm/credupdatesession.rs. Do not edit: rewritten on every check run.\nimport KanidmModel.SessionPluginTypes\nset_option linter.unusedVariables false\n{b}"
     );
     if !std::fs::read_to_string(&path).map(|old| old == text).unwrap_or(false) {
         std::fs::write(&path, text).map_err(|e| format!("{path}: {e}"))?;
